@@ -239,9 +239,9 @@ def run_bn(case, out):
                 vs = vs[:1]
             missing = [v for v in vs if v not in m.nodes]
             stale = any(c in m.cpds and v not in m.cpds[c]["parents"] for v in vs if v in m.nodes for c in m.children(v))
-            expect_raise = bool(missing) or stale
+            expect_raise = bool(missing)
             if stale and not missing:
-                tag = f"{op}[child_cpd_without_the_node]"
+                tag = f"{op}[child_cpd_without_the_node]"  # nothing to marginalise in that child: the removal goes through
             elif missing:
                 tag = f"{op}[unknown_node]"
             if op == "remove_nodes_from" and expect_raise:
@@ -253,7 +253,7 @@ def run_bn(case, out):
             def after():
                 for v in vs:
                     for c in m.children(v):
-                        if c in m.cpds:
+                        if c in m.cpds and v in m.cpds[c]["parents"]:
                             m.marginalize(c, [v])
                     m.cpds.pop(v, None)
                     m.latents.discard(v)
